@@ -21,6 +21,7 @@ func init() {
 	plans["C15"] = planC15
 	plans["C16"] = planC16
 	plans["C17seq"] = planC17seq
+	plans["C17sched"] = planC17sched
 	plans["C18"] = planC18
 	plans["C20"] = planC20
 }
@@ -977,6 +978,81 @@ func planC20(g *Gen, tier string) GenOutput {
 			return &o
 		})
 		res.Hists = append(res.Hists, h)
+	}
+	return res
+}
+
+// ---------------- C17 (schedules): forced completion orders through the gate hook ----------------
+func planC17sched(g *Gen, tier string) GenOutput {
+	res := GenOutput{Stats: map[string]int{}, Exhaustive: true}
+	one := int64(1)
+	runOne := func(tag string, f Frame, fn int, pick func(w []int, k int) int) {
+		r := NewRunner([]Frame{f})
+		r.pick = pick
+		h := Hist{Tag: tag, Steps: []StepObs{}}
+		h.Pool, _ = r.snapshot()
+		ax := []int64{one}
+		o := Op{K: "apply", F: 0, Fn: fn, Axis: &ax}
+		out := r.Exec(o)
+		pool, nrows := r.snapshot()
+		h.Steps = append(h.Steps, StepObs{Op: o, Out: out, Pool: pool, Nrows: nrows})
+		r.buildOracles(&h)
+		h.Tag = fmt.Sprintf("%s order=%v", tag, r.realised)
+		if r.realised == nil && f.nrows() > 0 {
+			h.Tag = tag + " UNFORCED (gate hook not reached)"
+			bump(res.Stats, "unforced")
+		}
+		res.Hists = append(res.Hists, h)
+	}
+	mk := func(n int) Frame {
+		a := Col{Key: "a", Name: "a", Data: []Cell{}}
+		b := Col{Key: "b", Name: "b", Data: []Cell{}}
+		for i := 0; i < n; i++ {
+			a.Data = append(a.Data, IntCell("int", int64(i+1)))
+			b.Data = append(b.Data, StrCell(fmt.Sprintf("s%d", i)))
+		}
+		return mkFrame(a, b)
+	}
+	// every permutation for 1..5 rows
+	maxN := scale(tier, 5, 6)
+	for n := 1; n <= maxN; n++ {
+		for _, p := range perms(n) {
+			perm := p
+			fn := []int{1, 0, 2, 8}[len(res.Hists)%4]
+			runOne(fmt.Sprintf("all-permutations rows=%d", n), mk(n), fn, func(w []int, k int) int {
+				want := perm[k]
+				for _, r := range w {
+					if r == want {
+						return r
+					}
+				}
+				return w[0]
+			})
+			bump(res.Stats, fmt.Sprintf("perm rows=%d", n))
+		}
+	}
+	// more rows than workers: a random valid order (any waiting row may complete next)
+	nbig := scale(tier, 60, 600)
+	for i := 0; i < nbig; i++ {
+		n := 17 + g.r.Intn(24)
+		if g.chance(0.3) {
+			n = 6 + g.r.Intn(10)
+		}
+		mode := g.r.Intn(3)
+		runOne(fmt.Sprintf("sampled rows=%d", n), mk(n), []int{1, 0, 3, 8}[g.r.Intn(4)], func(w []int, k int) int {
+			switch mode {
+			case 0:
+				return w[g.r.Intn(len(w))]
+			case 1:
+				return w[len(w)-1] // always the latest row first
+			default:
+				if k%2 == 0 {
+					return w[0]
+				}
+				return w[len(w)-1]
+			}
+		})
+		bump(res.Stats, "sampled")
 	}
 	return res
 }
